@@ -134,8 +134,19 @@ func xmlRune(r *core.Rand) rune {
 	}
 }
 
-// Date returns a whole-second instant.
+// zones a time.Time handed to the library may carry (the instant is what KMIP transports)
+var zones = []*time.Location{time.FixedZone("", 5*3600+1800), time.FixedZone("", -8*3600), time.FixedZone("", 14*3600), time.FixedZone("", -12*3600), time.FixedZone("CET", 3600)}
+
+// Date returns a whole-second instant; one in four carries a non-UTC location.
 func (g *G) Date() time.Time {
+	d := g.date()
+	if y := d.UTC().Year(); y > 1 && y < 9999 && g.R.P(1, 4) {
+		return d.In(zones[g.R.Intn(len(zones))])
+	}
+	return d
+}
+
+func (g *G) date() time.Time {
 	r := g.R
 	if g.M.TextDates {
 		// years 1..9999: unix -62135596800 .. 253402300799
